@@ -86,11 +86,89 @@ Proof.
   induction 1 as [|a l l' Hp IH|a b l|l1 l2 l3 H1 IH1 H2 IH2]; cbn; [reflexivity|f_equal; exact IH|apply insert_comm|congruence].
 Qed.
 
+(* collect + sort with a comparison of the caller's: still order-free when the comparison is a total order on the keys *)
+Section GenSort.
+  Variable K : Type.
+  Variable leb : K -> K -> bool.
+  Hypothesis total : forall x y, leb x y = true \/ leb y x = true.
+  Hypothesis antisym : forall x y, leb x y = true -> leb y x = true -> x = y.
+  Hypothesis trans : forall x y z, leb x y = true -> leb y z = true -> leb x z = true.
+  Fixpoint ginsert (x : K) (l : list K) : list K :=
+    match l with [] => [x] | z :: r => if leb x z then x :: l else z :: ginsert x r end.
+  Fixpoint gsort (l : list K) : list K := match l with [] => [] | x :: r => ginsert x (gsort r) end.
+  Lemma two x y : (if leb x y then [x; y] else [y; x]) = (if leb y x then [y; x] else [x; y]).
+  Proof.
+    destruct (leb x y) eqn:Exy, (leb y x) eqn:Eyx; try reflexivity.
+    - rewrite (antisym x y Exy Eyx). reflexivity.
+    - destruct (total x y); congruence.
+  Qed.
+  Lemma ginsert_comm x y l : ginsert x (ginsert y l) = ginsert y (ginsert x l).
+  Proof.
+    induction l as [|z r IH]; cbn [ginsert].
+    - exact (two x y).
+    - destruct (leb y z) eqn:Eyz, (leb x z) eqn:Exz; cbn [ginsert]; rewrite ?Eyz, ?Exz.
+      + destruct (leb x y) eqn:Exy, (leb y x) eqn:Eyx; rewrite ?Exz, ?Eyz; try reflexivity.
+        * rewrite (antisym x y Exy Eyx). reflexivity.
+        * destruct (total x y); congruence.
+      + destruct (leb x y) eqn:Exy; [rewrite (trans x y z Exy Eyz) in Exz; discriminate|]. rewrite ?Exz. reflexivity.
+      + destruct (leb y x) eqn:Eyx; [rewrite (trans y x z Eyx Exz) in Eyz; discriminate|]. rewrite ?Eyz. reflexivity.
+      + f_equal. exact IH.
+  Qed.
+  Theorem gsorted_walk_order_free o1 o2 : Permutation o1 o2 -> gsort o1 = gsort o2.
+  Proof.
+    induction 1 as [|a l l' Hp IH|a b l|l1 l2 l3 H1 IH1 H2 IH2]; cbn [gsort]; [reflexivity|f_equal; exact IH|apply ginsert_comm|congruence].
+  Qed.
+End GenSort.
+
+(* CheckRootSchema's comparison (typeCheckedBefore): unnamed types first, by file, then by order of creation, then -
+   and for named types only - by name.  Keys: (named?, file, seq, name), compared lexicographically; the name comes
+   last, so distinct names never tie. *)
+Definition tkey := (bool * N * N * N)%type.
+Definition tk_leb (a b : tkey) : bool :=
+  let '(ua, fa, sa, na) := a in let '(ub, fb, sb, nb) := b in
+  if Bool.eqb ua ub then
+    if ua then N.leb na nb     (* named: by name only *)
+    else if N.eqb fa fb then (if N.eqb sa sb then N.leb na nb else N.ltb sa sb) else N.ltb fa fb
+  else negb ua.
+(* named keys carry no file/seq in the comparison, so they are normalised to 0 *)
+Definition tk_norm (a : tkey) : tkey := let '(u, f, s, n) := a in if u then (u, 0%N, 0%N, n) else a.
+Definition tk_ok (a : tkey) : Prop := tk_norm a = a.
+Lemma tk_total a b : tk_leb a b = true \/ tk_leb b a = true.
+Proof.
+  destruct a as [[[ua fa] sa] na], b as [[[ub fb] sb] nb]. unfold tk_leb.
+  destruct ua, ub; cbn [Bool.eqb negb]; auto.
+  - destruct (N.leb_spec na nb), (N.leb_spec nb na); auto; lia.
+  - rewrite (N.eqb_sym fb fa), (N.eqb_sym sb sa). destruct (N.eqb_spec fa fb); [destruct (N.eqb_spec sa sb)|].
+    + destruct (N.leb_spec na nb), (N.leb_spec nb na); auto; lia.
+    + destruct (N.ltb_spec sa sb), (N.ltb_spec sb sa); auto; lia.
+    + destruct (N.ltb_spec fa fb), (N.ltb_spec fb fa); auto; lia.
+Qed.
+Lemma tk_antisym a b : tk_ok a -> tk_ok b -> tk_leb a b = true -> tk_leb b a = true -> a = b.
+Proof.
+  destruct a as [[[ua fa] sa] na], b as [[[ub fb] sb] nb]. unfold tk_leb, tk_ok, tk_norm.
+  destruct ua, ub; cbn [Bool.eqb negb]; try discriminate.
+  - intros Ha Hb H1 H2. inversion Ha; inversion Hb; subst. apply N.leb_le in H1, H2. f_equal. lia.
+  - intros _ _. rewrite (N.eqb_sym fb fa), (N.eqb_sym sb sa). destruct (N.eqb_spec fa fb); [destruct (N.eqb_spec sa sb)|]; intros H1 H2.
+    + apply N.leb_le in H1, H2. subst. f_equal. lia.
+    + apply N.ltb_lt in H1, H2. lia.
+    + apply N.ltb_lt in H1, H2. lia.
+Qed.
+Lemma tk_trans a b c : tk_leb a b = true -> tk_leb b c = true -> tk_leb a c = true.
+Proof.
+  destruct a as [[[ua fa] sa] na], b as [[[ub fb] sb] nb], c as [[[uc fc] sc] nc]. unfold tk_leb.
+  destruct ua, ub, uc; cbn [Bool.eqb negb]; try discriminate; auto.
+  - intros H1 H2. apply N.leb_le in H1, H2. apply N.leb_le. lia.
+  - destruct (N.eqb_spec fa fb), (N.eqb_spec fb fc), (N.eqb_spec fa fc); try lia;
+      try (destruct (N.eqb_spec sa sb), (N.eqb_spec sb sc), (N.eqb_spec sa sc); try lia);
+      rewrite ?N.leb_le, ?N.ltb_lt; try lia.
+Qed.
+
 Local Open Scope string_scope.
 (* every map range of the repository (regenerated on every run) is one of the accounted sites *)
 Definition accounted_sites : list string := [
   (* keys are collected, sorted, then walked: sorted_walk_order_free *)
-  "notations/jschema/checker/check_schema.go|CheckRootSchema|rootSchema.TypesList()|collect-sorted";
+  (* collected, sorted with typeCheckedBefore (a total order: tk_total/tk_antisym/tk_trans), walked: gsorted_walk_order_free *)
+  "notations/jschema/checker/check_schema.go|CheckRootSchema|rootSchema.TypesList()|collect-sorted-by:sort.Slice:typeCheckedBefore";
   "notations/jschema/loader/compiler_all_of.go|CompileAllOf|rootSchema.TypesList()|collect-sorted";
   "notations/jschema/loader/unnamed.go|sortedTypeNames|m|collect-sorted";
   "notations/jschema/checker/check_schema.go|checkSchema.reportableTypeName|c.foundTypeNames|collect-sorted";
